@@ -102,7 +102,7 @@ def _part(ctx, out, rep_acc, violations, counters):
             if counters["panics"] > 3:
                 continue
         violations.append({"class": cls,
-                           "what": f"{v['kind']} {v['class']} {str(v.get('detail', ''))[:120]} case: {v['line'][:100]}",
+                           "what": f"{v['kind']} {v['class']} {str(v.get('detail', ''))[:120]} case: {str(v.get('line', ''))[:100]}",
                            "replay": v["replay"]})
     rep_acc["evaluations"] += rep["evaluations"]
     rep_acc["distinct"] += rep["distinct"]
